@@ -11,15 +11,19 @@ Decides, for each post-Byron era pipeline (validate_shelley_ma_tx, validate_alon
              and no Err is built on that side (the limit is enforced at exactly that size).
  (c) R-PROV  the `size` that reaches both comparisons originates — through parameters, `&`, `?`, `ok_or`, casts — from
              MultiEraTx::size of a MultiEraTx built from the validated transaction, or from a helper whose every return value is
-             that call or has, per presence of the auxiliary data, the same linear shape as pallas-traverse/src/size.rs
-             (Σ len(raw_cbor(field)) + constant, extracted from size.rs itself by tabulation).  A size taken from a re-encoding
-             (minicbor::encode of the transaction, which includes the phase-2 validity flag) or a shape that differs from
-             size.rs is reported.
+             that call or has, per presence of the auxiliary data, the ledger's linear shape (Σ len(raw_cbor(part)) + constant)
+             given by the independent oracle spec/tx_size.json.  A size taken from a re-encoding (minicbor::encode of the
+             transaction, which includes the phase-2 validity flag) or any other shape is reported.
+ (c') R-TABLE MultiEraTx::size itself — tabulated per MultiEraTx variant and per presence of auxiliary data, with body_size /
+             witness_set_size / aux_data_size spliced in — equals the oracle for every post-Byron variant: coefficient 1 on the
+             raw length of the body, of the witness set and (when present) of the auxiliary data, constant term 1 (array header)
+             resp. 2 (header + null); nothing for the validity flag.  The oracle is hand-written from the ledger (CDDL + the
+             Alonzo size computation), not from pallas, so a slip inside size.rs (header counted twice, null forgotten, flag
+             counted) is reported even though the validator delegates to it.  A variant the oracle does not name fails closed.
  (d) sibling agreement: within an era both comparisons receive the same value; across eras the source has the same class.
 
-Not decided: that MultiEraTx::size itself equals the ledger's size (it is the oracle of the property statement); Byron (the
-traversal size of a Byron transaction is its body only, the property does not name it); the u32 arithmetic range of
-minfee_a*size+minfee_b (C33)."""
+Not decided: that raw_cbor() of each part is its on-wire bytes (C03/C05); Byron (the traversal size of a Byron transaction is
+its body only, the property does not name it); the integer range of minfee_a*size+minfee_b (C33)."""
 import re
 
 from pv.program import Program, AnchorLost
@@ -107,67 +111,88 @@ def aux_state(P, conds):
 # ------------------------------------------------------------------------------------------------ oracle from size.rs
 
 def traversal_shapes(P):
-    """{variant name: {aux_state: poly}} extracted from MultiEraTx::{size, body_size, witness_set_size, aux_data_size}."""
+    """{variant name: {aux_state: poly}} of MultiEraTx::size, tabulated with every pallas-traverse helper it calls inlined
+    (conditions conjoined, contradictory combinations dropped), so the split into helper functions does not matter."""
     size_fn = P.one(TRAVERSAL_SIZE)
     adt = P.adt("pallas_traverse::MultiEraTx")
     if adt is None:
         raise AnchorLost("ADT pallas_traverse::MultiEraTx not found")
     vnames = {v["idx"]: v["name"] for v in adt["variants"]}
     vtypes = {v["name"]: " ".join(f["ty"] for f in v["fields"]) for v in adt["variants"]}
-
-    def rows(f):
-        """[(set of variant names, aux_state, poly)]"""
-        out = []
-        for p in tabulate(f, P, 256):
-            if p.end != "return":
-                continue
-            vs = set(vnames.values())
-            rest = []
-            for c in p.conds:
-                d = c[0]
-                if d[0] == "discr" and sym_str(d[1], 50) == "*self":
-                    if c[1][0] == "eq":
-                        vs &= {vnames.get(c[1][1], "?")}
-                    else:
-                        vs -= {vnames.get(i, "?") for i in c[1][1]}
-                else:
-                    rest.append(c)
-            out.append((vs, aux_state(P, rest), p.ret))
-        return out
-
-    parts = {}
-    for name in ("body_size", "witness_set_size", "aux_data_size"):
-        g = P.one(TRAVERSAL_SIZE.replace("::size$", "::%s$" % name))
-        parts[g.path] = rows(g)
+    rows = X.tabulate_inlined(P, size_fn, depth=3, inline=lambda g: g.crate == "pallas_traverse")
     shapes = {}
-    for vs, st, ret in rows(size_fn):
+    for conds, ret in rows:
+        vs = set(vnames.values())
+        rest = []
+        for d, c in conds:
+            if d[0] == "discr" and sym_str(d[1], 50) == "*self":
+                if c[0] == "eq":
+                    vs &= {vnames.get(c[1], "?")}
+                else:
+                    vs -= {vnames.get(i, "?") for i in c[1]}
+            else:
+                rest.append((d, c))
+        st = aux_state(P, rest)
+        pl = X.poly(ret, raw_len_leaf)
         for v in vs:
-            # splice the three helpers for this variant
-            def leaf(s, v=v):
-                if s[0] == "call" and s[1] in parts:
-                    return ("HELPER", s[1])
-                return raw_len_leaf(s)
-            base = X.poly(ret, leaf)
-            helpers = [m[0][1] for m in base if len(m) == 1 and isinstance(m[0], tuple) and m[0][0] == "HELPER"]
-            states = {None}
-            for h in helpers:
-                for hvs, hst, _ in parts[h]:
-                    if v in hvs and hst is not None:
-                        states.add(hst)
-            if states != {None}:
-                states.discard(None)
-            for state in states:
-                total = {m: c for m, c in base.items() if not (len(m) == 1 and isinstance(m[0], tuple) and m[0][0] == "HELPER")}
-                ok = True
-                for h in helpers:
-                    cand = [(hst, r) for hvs, hst, r in parts[h] if v in hvs and hst in (None, state)]
-                    if len(cand) != 1:
-                        ok = False
-                        break
-                    total = X._padd(total, X.poly(cand[0][1], raw_len_leaf))
-                if ok:
-                    shapes.setdefault(v, {})[state] = total
+            slot = shapes.setdefault(v, {})
+            if st in slot and slot[st] != pl:
+                slot["other"] = pl          # two different sizes under the same auxiliary-data state: not a function of it
+            else:
+                slot[st] = pl
     return shapes, vtypes
+
+
+# ------------------------------------------------------------------------------------------------ independent oracle
+
+def oracle_shapes():
+    """{variant: {'Some': poly, 'absent': poly}} from spec/tx_size.json (hand-written from the ledger, not from pallas)."""
+    import json
+    import os
+    from pv.facts import VERIF
+    sp = json.load(open(os.path.join(VERIF, "spec", "tx_size.json")))
+    hdr, null = int(sp["array_header_bytes"]), int(sp["null_bytes"])
+    parts = {("RAW:" + p,): 1 for p in sp["parts"]}
+    some = dict(parts)
+    some[("RAW:" + sp["optional_part"],)] = 1
+    some[()] = hdr
+    absent = dict(parts)
+    absent[()] = hdr + null
+    return {v: {"Some": dict(some), "absent": dict(absent)} for v in sp["variants"]}, set(sp.get("unspecified_variants", {}))
+
+
+def check_traversal_against_oracle(res, P, shapes, oracle, unspecified):
+    """The tabulated MultiEraTx::size (helpers spliced) must be, for every post-Byron variant and both auxiliary-data states,
+    exactly the ledger's linear form: coefficient 1 on each raw length, constant = header (+ null)."""
+    size_fn = P.one(TRAVERSAL_SIZE)
+    where = "%s:%s" % (size_fn.file, size_fn.line)
+    adt = P.adt("pallas_traverse::MultiEraTx")
+    for v in adt["variants"]:
+        name = v["name"]
+        if name in unspecified:
+            continue
+        if name not in oracle:
+            res.violation("oracle:size.rs:%s:unspecified" % name, "MultiEraTx::%s is not covered by spec/tx_size.json: its size cannot be judged (extend the oracle)" % name,
+                          where=where, rule="R-TABLE")
+            continue
+        got = shapes.get(name, {})
+        odd = [k for k in got if k not in ("Some", "absent", None)]
+        if odd:
+            res.violation("oracle:size.rs:%s:not-a-function-of-aux" % name, "MultiEraTx::size of a %s transaction depends on something other than the presence of its "
+                          "auxiliary data (or cannot be tabulated): %s" % (name, X.poly_str(got[odd[0]])), where=where, rule="R-TABLE")
+            continue
+        for st in ("Some", "absent"):
+            key = "oracle:size.rs:%s:aux-%s" % (name, "present" if st == "Some" else "absent")
+            pl = got.get(st, got.get(None))
+            if pl is None:
+                res.violation(key, "MultiEraTx::size has no analysable return for variant %s with auxiliary data %s" % (name, "present" if st == "Some" else "absent"),
+                              where=where, rule="R-TABLE")
+            elif pl != oracle[name][st]:
+                res.violation(key, "MultiEraTx::size of a %s transaction with auxiliary data %s is %s; the ledger measures %s (spec/tx_size.json: 1-byte array header + body + "
+                              "witness set + auxiliary data or 1-byte null, validity flag not counted)" % (
+                                  name, "present" if st == "Some" else "absent", X.poly_str(pl), X.poly_str(oracle[name][st])), where=where, rule="R-TABLE")
+            else:
+                res.ok(key, "R-TABLE", "size.rs = %s" % X.poly_str(pl))
 
 
 # ------------------------------------------------------------------------------------------------ size source classes
@@ -179,7 +204,7 @@ def classify_source(P, fn, sym, shapes, vtypes, depth=2):
     if s[0] != "call":
         pl = X.poly(s, raw_len_leaf)
         if pl and all(isinstance(k, str) for m in pl for k in m):
-            return "shape-mismatch", "the size is computed in place as %s, which is not the traversal size (size.rs: %s); call MultiEraTx::size or a helper" % (
+            return "shape-mismatch", "the size is computed in place as %s, which is not the ledger size (%s); call MultiEraTx::size or a helper" % (
                 X.poly_str(pl), " | ".join(sorted({X.poly_str(p_) for sh in shapes.values() for st, p_ in sh.items() if st is not None})))
         return "unknown", "the size is %s, not the result of a size computation" % sym_str(s, 120)
     name = s[1]
@@ -237,10 +262,10 @@ def classify_source(P, fn, sym, shapes, vtypes, depth=2):
                     if st is not None and wst is not None and st != wst:
                         continue
                     if pl != wpl:
-                        classes.append(("shape-mismatch", "%s computes %s when the auxiliary data is %s; pallas-traverse size.rs computes %s" % (
+                        classes.append(("shape-mismatch", "%s computes %s when the auxiliary data is %s; the ledger size (spec/tx_size.json) is %s" % (
                             g.path, X.poly_str(pl), wst or "anything", X.poly_str(wpl))))
                     else:
-                        classes.append(("shape", "%s has the size.rs shape %s (aux %s)" % (g.name, X.poly_str(pl), wst)))
+                        classes.append(("shape", "%s has the ledger shape %s (aux %s)" % (g.name, X.poly_str(pl), wst)))
     if not classes:
         return "unknown", "%s returns no analysable size" % g.path
     for bad in ("re-encoding", "shape-mismatch", "unknown"):
@@ -349,12 +374,16 @@ def check_comparator(res, era, f, bi, target, leaf, kind):
 def run(tier):
     res = Result("C36", tier, level="other")
     P = Program(crates=["pallas_validate", "pallas_traverse", "pallas_codec"])
-    shapes, vtypes = traversal_shapes(P)
-    res.count("size.rs shapes (variant x aux state)", sum(len(v) for v in shapes.values()))
-    res.floor("size.rs shapes extracted", sum(len(v) for k, v in shapes.items() if k != "Byron"), 4)
-    for v, sh in sorted(shapes.items()):
+    tshapes, vtypes = traversal_shapes(P)
+    oracle, unspecified = oracle_shapes()
+    res.count("size.rs shapes (variant x aux state)", sum(len(v) for v in tshapes.values()))
+    res.floor("size.rs shapes extracted", sum(len(v) for k, v in tshapes.items() if k != "Byron"), 4)
+    for v, sh in sorted(tshapes.items()):
         for st, pl in sorted(sh.items(), key=lambda x: str(x[0])):
             res.sample({"size.rs": v, "aux": st, "size": X.poly_str(pl)})
+    check_traversal_against_oracle(res, P, tshapes, oracle, unspecified)
+    # helpers that compute a size themselves are compared with the oracle, not with size.rs
+    shapes = oracle
     classes = {}
     for era, rx in ERAS.items():
         entry = P.one(rx)
@@ -416,13 +445,15 @@ def run(tier):
     elif good:
         res.violation("sibling-agreement", "eras disagree on how a transaction is measured: %s use the traversal size, %s do not" % (
             sorted(good), sorted(set(ERAS) - set(good))), rule="R-PROV")
-    res.assumptions += ["MultiEraTx::size is the ledger's measure (the property statement names it as the oracle)",
+    res.assumptions += ["the ledger measures [body, wits, aux / null] with the original bytes of each part (spec/tx_size.json)",
                         "KeepRaw::raw_cbor returns the original bytes of the decoded part (C03/C05)"]
     return finish(res,
                   explanation="Provenance of the size that reaches the minimum-fee and maximum-size comparisons of each post-Byron pipeline (must be the traversal "
-                              "size or a helper with the same linear shape as size.rs, never a re-encoding), plus polarity and strictness of both comparisons "
-                              "read as polynomial (in)equalities from the branch facts that hold at every Ok-capable return. Decides the source/strictness "
-                              "clauses; does not decide that MultiEraTx::size equals the ledger's size, nor Byron.",
+                              "size or a helper with the ledger's linear shape, never a re-encoding), MultiEraTx::size itself compared per variant and auxiliary-data state with a "
+                              "hand-written ledger oracle (spec/tx_size.json), plus polarity and strictness of both comparisons "
+                              "read as polynomial (in)equalities from the branch facts that hold at every Ok-capable return. Does not decide Byron nor "
+                              "that raw_cbor() is the on-wire encoding of each part.",
                   rule_text="R-CDEP(fee >= minfee_a*size+minfee_b at every Ok; size <= max_transaction_size at every Ok; no Err on those sides) + "
-                            "R-PROV(size originates from MultiEraTx::size or a size.rs-shaped helper; same value for both checks; all eras agree) + R-PIPE",
-                  trusted_base=["rustc MIR", "pallas-traverse/src/size.rs as the oracle of the size shape"])
+                            "R-PROV(size originates from MultiEraTx::size or a ledger-shaped helper; same value for both checks; all eras agree) + "
+                            "R-TABLE(MultiEraTx::size == spec/tx_size.json per variant x aux state) + R-PIPE",
+                  trusted_base=["rustc MIR", "spec/tx_size.json (hand-written from the ledger CDDL and the Alonzo size computation)"])
